@@ -549,6 +549,18 @@ class Engine:
             return
         st = st.clone()
         st.env["result"] = val
+        if c.unreachable:
+            # a return the contract declares dead code under its requires (a defensive fallback): proved unreachable instead of
+            # being a reachability canary; a declared anchor that matches no return statement makes the contract stale
+            rets = [" ".join(ast.unparse(n).split()) for n in ast.walk(self.fn) if isinstance(n, ast.Return)]
+            for a in c.unreachable:
+                if not any(anchor_matches(a, t) for t in rets):
+                    raise StaleContract(f"{self.qualname}: `unreachable` anchor {a!r} matches no return statement")
+            here = [" ".join(ast.unparse(n).split()) for n in ast.walk(self.fn) if isinstance(n, ast.Return) and n.lineno == line]
+            if here and any(anchor_matches(a, here[0]) for a in c.unreachable):
+                self.oblige(st, z3.BoolVal(False), f"unreachable-return@{line}", "post", line,
+                            f"`{here[0]}` is never reached under the contract's requires")
+                return
         self.canary_points.append((f"{self.short}/canary/return@{line}", list(st.pc)))
         for exc, rs in c.raises.items():
             if rs.get("iff") is not None:
